@@ -542,6 +542,22 @@ func (p *pathRun) gcdTerm(a, b *smt.Term) *smt.Term {
 		if pr.y.IsConst() && p.eng.knownPrime(pr.y.Val) {
 			p.axiom("gcd-prime", c.Eq(c.Eq(g, c.IntC64(1)), c.Not(c.Eq(c.Mod(pr.x, pr.y), c.IntC64(0)))))
 			p.axiom("gcd-prime", c.Or(c.Eq(g, c.IntC64(1)), c.Eq(g, pr.y)))
+		} else if pr.y.IsConst() && pr.y.Val.Sign() > 0 && pr.y.Val.BitLen() <= 32 {
+			// a small composite numeral (toy moduli): coprime iff no prime factor divides x
+			n := pr.y.Val.Int64()
+			var noFactor []*smt.Term
+			for f := int64(2); f*f <= n; f++ {
+				if n%f == 0 {
+					noFactor = append(noFactor, c.Not(c.Eq(c.Mod(pr.x, c.IntC64(f)), c.IntC64(0))))
+					for n%f == 0 {
+						n /= f
+					}
+				}
+			}
+			if n > 1 {
+				noFactor = append(noFactor, c.Not(c.Eq(c.Mod(pr.x, c.IntC64(n)), c.IntC64(0))))
+			}
+			p.axiom("gcd-small-composite", c.Eq(c.Eq(g, c.IntC64(1)), c.And(noFactor...)))
 		}
 	}
 	return g
